@@ -39,7 +39,7 @@ const verifPoison = 0xDB
 
 type verifQEntry struct {
 	b    []byte // full capacity
-	site string
+	site [10]uintptr
 }
 
 type VerifReport struct {
@@ -132,9 +132,19 @@ func VerifWriteStats() {
 	os.WriteFile(verifLogPath+".stats", b, 0644)
 }
 
-func verifStack() string {
-	var pcs [12]uintptr
-	n := runtime.Callers(3, pcs[:])
+func verifSite() (pcs [10]uintptr) {
+	runtime.Callers(3, pcs[:])
+	return
+}
+
+func verifStack(pcs [10]uintptr) string {
+	n := 0
+	for n < len(pcs) && pcs[n] != 0 {
+		n++
+	}
+	if n == 0 {
+		return ""
+	}
 	frames := runtime.CallersFrames(pcs[:n])
 	s := ""
 	for {
@@ -188,6 +198,7 @@ func verifRelease(b Buffer) bool {
 	verifReleases.Add(1)
 	full := b[:c]
 	base := uintptr(unsafe.Pointer(unsafe.SliceData(full)))
+	site := verifSite()
 
 	verifMu.Lock()
 	if verifMaxN <= 0 {
@@ -196,14 +207,23 @@ func verifRelease(b Buffer) bool {
 		return false
 	}
 	if idx, dup := verifInQ[base]; dup {
-		verifReportLocked(VerifReport{Kind: "double-release", Cap: c, Site: verifStack(), Site0: verifQ[idx-1].site})
+		verifReportLocked(VerifReport{Kind: "double-release", Cap: c, Site: verifStack(site), Site0: verifStack(verifQ[idx-1].site)})
 		verifMu.Unlock()
 		return true // drop the second release, the array is already parked
 	}
+	verifMu.Unlock()
+	// The releasing goroutine still owns the array here (unless this is a
+	// racing double release, which the re-check below catches).
 	for i := range full {
 		full[i] = verifPoison
 	}
-	verifQ = append(verifQ, verifQEntry{b: full, site: verifStack()})
+	verifMu.Lock()
+	if idx, dup := verifInQ[base]; dup {
+		verifReportLocked(VerifReport{Kind: "double-release", Cap: c, Site: verifStack(site), Site0: verifStack(verifQ[idx-1].site)})
+		verifMu.Unlock()
+		return true
+	}
+	verifQ = append(verifQ, verifQEntry{b: full, site: site})
 	verifInQ[base] = len(verifQ)
 	verifQBytes += c
 	verifDrainLocked(verifMaxN, verifMaxB)
@@ -222,7 +242,7 @@ func verifDrainLocked(maxN, maxB int) {
 		verifExits.Add(1)
 		for i, v := range e.b {
 			if v != verifPoison {
-				verifReportLocked(VerifReport{Kind: "write-after-release", Cap: len(e.b), Site: "quarantine-exit", Site0: e.site, Off: i})
+				verifReportLocked(VerifReport{Kind: "write-after-release", Cap: len(e.b), Site: "quarantine-exit", Site0: verifStack(e.site), Off: i})
 				break
 			}
 		}
